@@ -94,9 +94,15 @@ Fixpoint sep_dots (l : list str) : str :=
   | x :: r => x ++ 46 :: sep_dots r
   end.
 
+(* a string is printed between braces; printable ASCII other than the double quote, backslash and
+   braces is printed as it is, every other code point as backslash, decimal code, semicolon *)
+Definition esc_char (c : N) : str :=
+  if (N.leb 32 c && N.leb c 126 && negb (N.eqb c 34) && negb (N.eqb c 92) && negb (N.eqb c 123) && negb (N.eqb c 125))%bool
+  then [c] else 92 :: dec_of_N c ++ [59].
+
 Fixpoint show_obs_str (o : obs) : str :=
   match o with
-  | OS s => 115 :: sep_dots (map dec_of_N s)
+  | OS s => 123 :: flat_map esc_char s ++ [125]
   | OZ z => dec_of_Z z
   | OL l => 40 :: (fix go (l : list obs) : str :=
               match l with
